@@ -457,7 +457,7 @@ class ExprMixin:
 
     # ------------------------------------------------------------------ subscripts and slices
     def ev_Subscript(self, e, p, module):
-        base = self.ev(e.value, p, module)
+        base = self.narrow(self.ev(e.value, p, module), p)
         if isinstance(e.slice, ast.Slice):
             return self.slice_value(base, e.slice, p, module, e)
         idx = self.ev(e.slice, p, module)
